@@ -225,7 +225,15 @@ class ProcessServlet(Servlet):
             p.start()
             name = q_out.get()
             if name is None:
-                p.join()  # this will raise exception b/c worker __init__ failed
+                try:
+                    p.join()  # this will raise exception b/c worker __init__ failed
+                finally:
+                    # Do not leave the workers that have been started so far running.
+                    if self._workers:
+                        q_in.put(None)
+                        for w in self._workers:
+                            w.join()
+                        self._workers = []
             self._workers.append(p)
             logger.debug('   ... worker <%s> is ready', name)
 
@@ -343,7 +351,15 @@ class ThreadServlet(Servlet):
             w.start()
             name = q_out.get()
             if name is None:
-                w.join()  # this will raise exception b/c worker __init__ failed
+                try:
+                    w.join()  # this will raise exception b/c worker __init__ failed
+                finally:
+                    # Do not leave the workers that have been started so far running.
+                    if self._workers:
+                        q_in.put(None)
+                        for ww in self._workers:
+                            ww.join()
+                        self._workers = []
             self._workers.append(w)
             logger.debug('   ... worker <%s> is ready', name)
 
@@ -432,7 +448,14 @@ class SequentialServlet(Servlet):
                 self._qs.append(q2)
             else:
                 q2 = q_out
-            s.start(q1, q2)
+            try:
+                s.start(q1, q2)
+            except BaseException:
+                # Do not leave the servlets that have been started so far running.
+                for ss in self._servlets[:i]:
+                    ss.stop()
+                self._qs = []
+                raise
             q1 = q2
         self._q_in = q_in
         self._q_out = q_out
@@ -518,7 +541,7 @@ class EnsembleServlet(Servlet):
         self._reset()
         self._qin = q_in
         self._qout = q_out
-        for s in self._servlets:
+        for i, s in enumerate(self._servlets):
             q1 = (
                 _SimpleThreadQueue()
                 if s.input_queue_type == 'thread'
@@ -529,7 +552,14 @@ class EnsembleServlet(Servlet):
                 if s.output_queue_type == 'thread'
                 else _SimpleProcessQueue()
             )
-            s.start(q1, q2)
+            try:
+                s.start(q1, q2)
+            except BaseException:
+                # Do not leave the servlets that have been started so far running.
+                for ss in self._servlets[:i]:
+                    ss.stop()
+                self._reset()
+                raise
             self._qins.append(q1)
             self._qouts.append(q2)
         t = Thread(target=self._dequeue, name=f'{self.__class__.__name__}._dequeue')
@@ -702,13 +732,20 @@ class SwitchServlet(Servlet):
         # `self.switch` to determine which member servlet should
         # process this input; then the input is placed in
         # the appropriate queue.
-        for s in self._servlets:
+        for i, s in enumerate(self._servlets):
             q1 = (
                 _SimpleThreadQueue()
                 if s.input_queue_type == 'thread'
                 else _SimpleProcessQueue()
             )
-            s.start(q1, q_out)
+            try:
+                s.start(q1, q_out)
+            except BaseException:
+                # Do not leave the servlets that have been started so far running.
+                for ss in self._servlets[:i]:
+                    ss.stop()
+                self._reset()
+                raise
             self._qins.append(q1)
 
         self._thread_enqueue = Thread(
